@@ -54,20 +54,20 @@ Definition deep_msg : msg :=
   mkMsg (mkHeader 1 true 0 false false true true false false 0) []
         (map (fun n => mkRR n 1 1 60 4 (RA [10;0;0;1]%N)) (deep_names 12 [])) [] [].
 
+Definition deep_out : list N :=
+  Eval vm_compute in match pack_msg (msg_len deep_msg) true 0 deep_msg with Ok o => o | _ => [] end.
+Definition deep_bs : list N :=
+  Eval vm_compute in match pack_msg (msg_len deep_msg) false 0 deep_msg with Ok o => o | _ => [] end.
+
 Theorem C02_deep_chain_refuted :
   exists m out, (exists bs, bytes bs /\ unpack_msg bs = Ok m) /\
                 pack_msg (msg_len m) true 0 m = Ok out /\ unpack_msg out = Err ETooManyPtr.
 Proof.
-  exists deep_msg.
-  destruct (pack_msg (msg_len deep_msg) true 0 deep_msg) as [out| | |] eqn:E; try (vm_compute in E; discriminate).
-  exists out. split.
-  - destruct (pack_msg (msg_len deep_msg) false 0 deep_msg) as [bs| | |] eqn:Ep; try (vm_compute in Ep; discriminate).
-    exists bs. vm_compute in Ep. inversion Ep; subst bs. split.
-    + unfold bytes. rewrite Forall_forall. intros x Hx. unfold isbyte.
-      apply N.ltb_lt.
-      revert x Hx. apply Forall_forall. apply forallb_forall_N. vm_compute. reflexivity.
-    + vm_compute. reflexivity.
-  - split; [reflexivity|]. vm_compute in E. inversion E; subst out. vm_compute. reflexivity.
+  exists deep_msg, deep_out. split; [exists deep_bs; split|split].
+  - apply bytes_forallb. vm_compute. reflexivity.
+  - vm_compute. reflexivity.
+  - vm_compute. reflexivity.
+  - vm_compute. reflexivity.
 Qed.
 Print Assumptions C02_deep_chain_refuted.
 
